@@ -1,4 +1,5 @@
 import J5V.Schema.PropSet
+import J5V.Schema.Export
 import J5V.Generated.SchemaFacts
 /-!
 # C18 — schema reflection over arbitrary linked proto3 descriptor sets is total and self-consistent
@@ -49,20 +50,31 @@ theorem C18_names_unique (fr : Frame) (ops : List RegOp) (h : finish fr = .ok op
 
 /-! ### totality
 
-The full statement — *for every linked descriptor set the reader returns a schema set or an
-error, never a panic* — is **false** of the code as it is: two descriptors can map to one J5
-schema name (`splitDescriptorName` joins nested names with `_`), and `buildEnumFieldSchema`
-asserts `ref.To.(*EnumSchema)` without checking (recorded open finding `name-collision:*`).
-So the full statement is kept as a `def`, refuted at a concrete witness (replayed on the Go side
-as the first op of every `schema.reflect` shard), and proved under the explicit decidable
-hypothesis `enumNamesFree` that excludes exactly that class. -/
+`linked ds` is what `protodesc` guarantees about a descriptor set (trusted): a message / enum
+kind field comes with its descriptor and the descriptor is in the set, enums have at least one
+value, the listed file-level names exist, and full names are unique across kinds. -/
 
-/-- the full-strength statement -/
-def C18_total_full : Prop :=
-  ∀ ds : DescSet, linked ds = true → ∀ w, schemaSetFromFiles ds ≠ .panic w
+/-- **Never panics.** For every linked descriptor set `SchemaSetFromFiles` returns a schema set
+or an error — for any number of messages, any self / mutual recursion, any annotation
+combination, and whether or not two descriptors collide on a J5 schema name. (Before af1da62 the
+last case panicked: see `collisionWitness`.) -/
+theorem C18_total (ds : DescSet) (hl : linked ds = true) :
+    ∀ w, schemaSetFromFiles ds ≠ .panic w :=
+  (schemaSetFromFiles_safe ds hl).1
+
+/-- the same for `SchemaCache.Schema`, for any sequence of calls on one cache: each call returns
+a schema or an error and leaves the cache sound (including after a failed build, which is rolled
+back) -/
+theorem C18_cache_total (ds : DescSet) (hl : linked ds = true) (reg : Reg) (hreg : RegOK ds reg)
+    (m : Msg) (hm : m ∈ ds.msgs) :
+    (∀ w, (cacheSchema ds reg m).1 ≠ .panic w) ∧ RegOK ds (cacheSchema ds reg m).2 :=
+  cacheSchema_safe ds hl reg m hm hreg
 
 /-- `message Foo_E {}  message Foo { enum E { E_UNSPECIFIED = 0; E_A = 1; }
-     E x = 1 [(buf.validate.field).enum.in = 1]; }` — both `Foo_E` and `Foo.E` are "Foo_E" -/
+     E x = 1 [(buf.validate.field).enum.in = 1]; }` — both `Foo_E` and `Foo.E` are "Foo_E".
+The witness of the repaired defect (first op of every `schema.reflect` shard on the Go side):
+the unchecked `ref.To.(*EnumSchema)` used to panic here; now the second descriptor's claim on the
+name is an error. -/
 def collisionWitness : DescSet :=
   let x : FieldD := ⟨"x", "x", 1, .enum, .single, -1, .enum "wt.v1.Foo.E" "wt.v1" "Foo_E", false,
     some (.mk none none (.enum [1] [])), none, none, none, none, none⟩
@@ -71,35 +83,11 @@ def collisionWitness : DescSet :=
   let e : EnumD := ⟨"wt.v1.Foo.E", "wt.v1", "E", "Foo_E", false, [("E_UNSPECIFIED", 0), ("E_A", 1)]⟩
   ⟨["wt.v1.Foo_E", "wt.v1.Foo"], [], ["wt.v1.Foo_E", "wt.v1.Foo"], [fooE, foo], [e]⟩
 
-theorem collisionWitness_linked : linked collisionWitness = true := by decide
+example : linked collisionWitness = true := by decide
 
-theorem collisionWitness_panics :
-    schemaSetFromFiles collisionWitness =
-      .panic "interface conversion: RootSchema is not *EnumSchema" :=
+theorem C18_collision_is_an_error :
+    schemaSetFromFiles collisionWitness = .err "schema name is used by two descriptors" :=
   schemaSetFromFilesN_sound collisionWitness 10 _ (by decide)
-
-/-- the full statement does not hold of the code as it is -/
-theorem C18_total_counterexample : ¬ C18_total_full := by
-  intro h
-  exact h collisionWitness collisionWitness_linked _ collisionWitness_panics
-
-/-- **Never panics** (partial: enum names free). For every linked descriptor set in which no
-message and no oneof shares its schema name with an enum, `SchemaSetFromFiles` returns a schema
-set or an error — for any number of messages, any recursion, any annotation combination. -/
-theorem C18_total_partial (ds : DescSet) (hl : linked ds = true) (hf : enumNamesFree ds = true) :
-    ∀ w, schemaSetFromFiles ds ≠ .panic w :=
-  (schemaSetFromFiles_safe ds hl hf).1
-
-/-- the same for `SchemaCache.Schema`, for any sequence of calls on one cache: each call returns
-a schema or an error and leaves the cache sound (including after a failed build, which is rolled
-back) -/
-theorem C18_cache_total_partial (ds : DescSet) (hl : linked ds = true)
-    (hf : enumNamesFree ds = true) (reg : Reg) (hreg : RegOK ds reg) (m : Msg) (hm : m ∈ ds.msgs) :
-    (∀ w, (cacheSchema ds reg m).1 ≠ .panic w) ∧ RegOK ds (cacheSchema ds reg m).2 :=
-  cacheSchema_safe ds hl hf reg m hm hreg
-
-/-- the hypothesis excludes exactly the witness's class -/
-example : enumNamesFree collisionWitness = false := by decide
 
 /-! ### proto paths resolve to fields of the matching kind; names are unique
 
@@ -159,6 +147,27 @@ theorem C18_property_describes_field (ds : DescSet) (reg : Reg) (f : FieldD) (pr
 
 example : structFreeSet structWitness = false := by decide
 
+/-- what C15 assumes of a reflected scalar (`wfField`): the reader only ever builds integer and
+float scalars with a format the importer's `intKinds` / `floatKinds` tables know -/
+theorem C18_reader_formats_importable (kind : PKind) (e : Ext) (key : Option KeySum) (tag : STag)
+    (fmt : Nat) (h : buildScalar kind e key = .ok (tag, fmt)) :
+    (tag = .integer → (intKind fmt).isSome = true) ∧ (tag = .float → (floatKind fmt).isSome = true) := by
+  unfold buildScalar at h
+  split at h
+  · -- string: the tag is string or key
+    obtain ⟨t, ht, hx⟩ := map_eq_ok h
+    cases hx
+    unfold buildString at ht
+    obtain ⟨a, _, h2⟩ := bind_eq_ok ht
+    obtain ⟨b, _, h3⟩ := bind_eq_ok h2
+    obtain ⟨c, _, h4⟩ := bind_eq_ok h3
+    rcases stringKind_tag _ _ _ h4 with rfl | rfl <;> simp
+  · cases h; simp
+  all_goals first
+    | (cases h; done)
+    | (cases h; simp)
+    | (obtain ⟨_, _, hx⟩ := map_eq_ok h; cases hx; simp [intKind, floatKind])
+
 /-! ### the property-set layer of the codec accepts what the reader produced
 
 `lib/j5reflect` builds, for a message, the client properties (flattened fields expanded), walks
@@ -214,8 +223,7 @@ def selfRecursive : DescSet :=
   let m : Msg := ⟨"p.v1.M", "p.v1", "M", "M", none, none, "nofield", none, [], [f1, f2]⟩
   ⟨["p.v1.M"], [], ["p.v1.M"], [m], []⟩
 
-example : linked selfRecursive = true ∧ enumNamesFree selfRecursive = true ∧
-    structFreeSet selfRecursive = true := by decide
+example : linked selfRecursive = true ∧ structFreeSet selfRecursive = true := by decide
 
 /-- … and it reflects: one object `M` with an object property pointing back at `M` -/
 example : schemaSetFromFiles selfRecursive =
